@@ -120,8 +120,8 @@ async def verify_usable(root, key, model, tag):
     return problems
 
 
-async def scenario(root, encrypted, command, budget, concurrent):
-    """build a base repository, run `command` on a dying backend; -> (problems, mutations used, finished)"""
+async def build_base(root, encrypted):
+    """a repository with two snapshots s1, s2 of three files (f1 changed in between)"""
     shutil.rmtree(root / 'repo', ignore_errors=True)
     for p in root.glob('out_*'):
         shutil.rmtree(p, ignore_errors=True)
@@ -150,6 +150,12 @@ async def scenario(root, encrypted, command, budget, concurrent):
         s2 = await r.snapshot(paths=[src])
     model[s2.name] = files2
     await r.close()
+    return key, model, s1, s2, src
+
+
+async def scenario(root, encrypted, command, budget, concurrent):
+    """build a base repository, run `command` on a dying backend; -> (problems, mutations used, finished)"""
+    key, model, s1, s2, src = await build_base(root, encrypted)
     dying = Dying(root / 'repo', budget)
     rd = Repository(dying, concurrent=concurrent, quiet=True, cache_directory=None)
     finished = True
@@ -178,6 +184,62 @@ async def scenario(root, encrypted, command, budget, concurrent):
     return problems, dying.mutations, finished
 
 
+OS_FAULTS = ('scandir_top', 'scandir_sub', 'unlink_snapshot')
+
+
+async def os_fault_scenario(root, encrypted, command, fault):
+    """ONE operating-system call inside the local adapter fails for good (EACCES / EMFILE) while delete / clean runs: listing the
+    snapshots/ directory, listing one of its sub-directories, or removing the snapshot object.  The command may fail, but afterwards
+    (fault gone) every snapshot that is still listed must restore exactly."""
+    import errno
+    import replicat.backends.local as local_mod
+    import replicat.utils.fs as fs_mod
+    key, model, s1, s2, src = await build_base(root, encrypted)
+    repo_dir = (root / 'repo').resolve()
+    snap_dir = repo_dir / 'snapshots'
+    victim = next(n for n in Local(root / 'repo').list_files('snapshots/') if s1.name in n)
+    real_scandir, real_unlink = os.scandir, Path.unlink
+
+    def scandir(path='.'):
+        p = Path(os.fspath(path)).resolve()
+        if (fault == 'scandir_top' and p == snap_dir) or (fault == 'scandir_sub' and p.parent == snap_dir and p.name == victim.split('/')[1]):
+            raise OSError(errno.EMFILE, 'Too many open files', str(p))
+        return real_scandir(path)
+
+    def unlink(self, missing_ok=False):
+        if fault == 'unlink_snapshot' and Path(self).resolve() == (repo_dir / victim).resolve():
+            raise PermissionError(errno.EPERM, 'Operation not permitted', str(self))
+        return real_unlink(self, missing_ok=missing_ok)
+
+    class FakeOS:
+        def __getattr__(self, name):
+            return scandir if name == 'scandir' else getattr(os, name)
+
+    r = Repository(Local(root / 'repo'), concurrent=2, quiet=True, cache_directory=None)
+    local_mod.os, fs_mod.os, Path.unlink = FakeOS(), FakeOS(), unlink
+    finished = True
+    try:
+        with lib.quiet():
+            await r.unlock(password=b'pw', key=r.serialize(key) if key else None)
+            if command == 'delete':
+                await r.delete_snapshots([s1.name], confirm=False)
+            else:
+                await r.clean()
+    except BaseException:
+        finished = False
+    finally:
+        local_mod.os, fs_mod.os, Path.unlink = os, os, real_unlink
+    await asyncio.sleep(0.05)
+    listed = list(Local(root / 'repo').list_files('snapshots/'))
+    for name in list(model):
+        if not any(name in n for n in listed):
+            del model[name]            # really gone: fine for delete; for clean this never happens
+    problems = await verify_usable(root, key, model, f'{command}_{fault}')
+    if command == 'clean' and len(model) != 2:
+        problems.append({'problem': 'clean removed a snapshot'})
+    return problems, finished
+
+
 def main():
     payload = lib.read_payload()
     tier, seed = payload.get('tier', 'quick'), int(payload.get('seed', 0))
@@ -202,6 +264,19 @@ def main():
                         if finished:
                             break
                         budget += 1
+    for encrypted in ((False, True) if tier == 'thorough' else (False,)):
+        for command in ('delete', 'clean'):
+            for fault in OS_FAULTS:
+                cases += 1
+                case = {'encrypted': encrypted, 'command': command, 'os_fault': fault}
+                with lib.scratch('vf_c03o_') as root:
+                    try:
+                        probs, finished = asyncio.run(os_fault_scenario(root, encrypted, command, fault))
+                    except Exception as e:
+                        import traceback
+                        probs = [{'problem': 'harness exception', 'error': f'{type(e).__name__}: {e}'[:300], 'tb': traceback.format_exc()[-500:]}]
+                if probs:
+                    failures.append({'id': f'osfault_{command}_{fault}_{int(encrypted)}', 'class': None, 'case': case, 'detail': probs[:3]})
     lib.emit({'status': 'ok', 'cases': cases, 'distinct': cases, 'failures': failures[:10], 'samples': samples,
               'exhaustive': False, 'reproduced': bool(failures)})
 
